@@ -42,7 +42,7 @@ SF_RE = re.compile(r"^  Generation (\d+) \((.*?)\) (\w+): (\S+) \((\w+)\)$")
 
 
 def strategy(tier):
-    return hist.scenarios(CFG)
+    return hist.scenarios_deep(CFG)
 
 
 def parse_info(out):
